@@ -285,7 +285,131 @@ func inlinePredCall(f *Func, c *ast.CallExpr) ast.Expr {
 	for o, d := range lets {
 		m[o] = substExpr(info, d, m, 0)
 	}
-	return substExpr(info, ladderBool(info, rungs), m, 0)
+	return projectLiteralFields(f, substExpr(info, ladderBool(info, rungs), m, 0), 0)
+}
+
+// projectLiteralFields replaces X.F by the value the field was given, when X is a local of f that is assigned exactly once,
+// from a keyed struct literal, and is never modified afterwards (no field assignment, no address taken, not passed by
+// pointer receiver): such a local is a tuple of its field values. `window := slotWindow{before: b, until: u}` followed by
+// window.isPast(slot) then reads as slot < int(u).
+func projectLiteralFields(f *Func, e ast.Expr, depth int) ast.Expr {
+	if e == nil || depth > 40 {
+		return e
+	}
+	info := f.Pkg.TypesInfo
+	rec := func(x ast.Expr) ast.Expr { return projectLiteralFields(f, x, depth+1) }
+	switch x := e.(type) {
+	case *ast.ParenExpr:
+		return &ast.ParenExpr{Lparen: x.Lparen, X: rec(x.X), Rparen: x.Rparen}
+	case *ast.UnaryExpr:
+		return &ast.UnaryExpr{OpPos: x.OpPos, Op: x.Op, X: rec(x.X)}
+	case *ast.BinaryExpr:
+		return &ast.BinaryExpr{X: rec(x.X), OpPos: x.OpPos, Op: x.Op, Y: rec(x.Y)}
+	case *ast.CallExpr:
+		args := make([]ast.Expr, len(x.Args))
+		for i, a := range x.Args {
+			args[i] = rec(a)
+		}
+		return &ast.CallExpr{Fun: x.Fun, Lparen: x.Lparen, Args: args, Ellipsis: x.Ellipsis, Rparen: x.Rparen}
+	case *ast.SelectorExpr:
+		id, ok := unparen(x.X).(*ast.Ident)
+		if !ok {
+			return e
+		}
+		v, isVar := info.Uses[id].(*types.Var)
+		if !isVar || v.IsField() {
+			return e
+		}
+		if val := literalFieldOf(f, v, x.Sel.Name); val != nil {
+			return &ast.ParenExpr{Lparen: x.Pos(), X: val, Rparen: x.End()}
+		}
+	}
+	return e
+}
+
+// LiteralFieldOf exports literalFieldOf.
+func LiteralFieldOf(f *Func, v *types.Var, field string) ast.Expr { return literalFieldOf(f, v, field) }
+
+// literalFieldOf: see projectLiteralFields.
+func literalFieldOf(f *Func, v *types.Var, field string) ast.Expr {
+	root := f.Root()
+	if root.Body == nil {
+		return nil
+	}
+	info := f.Pkg.TypesInfo
+	var lit *ast.CompositeLit
+	n, spoiled := 0, false
+	ast.Inspect(root.Body, func(m ast.Node) bool {
+		switch s := m.(type) {
+		case *ast.AssignStmt:
+			for i, l := range s.Lhs {
+				switch lx := unparen(l).(type) {
+				case *ast.Ident:
+					if info.Defs[lx] == types.Object(v) || info.Uses[lx] == types.Object(v) {
+						n++
+						if len(s.Rhs) == len(s.Lhs) {
+							lit, _ = unparen(s.Rhs[i]).(*ast.CompositeLit)
+						}
+					}
+				case *ast.SelectorExpr:
+					if bid, ok := unparen(lx.X).(*ast.Ident); ok && info.Uses[bid] == types.Object(v) {
+						spoiled = true // field-wise modification
+					}
+				}
+			}
+		case *ast.ValueSpec:
+			for i, nm := range s.Names {
+				if info.Defs[nm] == types.Object(v) {
+					n++
+					if i < len(s.Values) {
+						lit, _ = unparen(s.Values[i]).(*ast.CompositeLit)
+					}
+				}
+			}
+		case *ast.UnaryExpr:
+			if s.Op == token.AND {
+				if bid, ok := unparen(s.X).(*ast.Ident); ok && info.Uses[bid] == types.Object(v) {
+					spoiled = true
+				}
+			}
+		case *ast.IncDecStmt:
+			if sx, ok := unparen(s.X).(*ast.SelectorExpr); ok {
+				if bid, ok := unparen(sx.X).(*ast.Ident); ok && info.Uses[bid] == types.Object(v) {
+					spoiled = true
+				}
+			}
+		case *ast.CallExpr:
+			// a method with a pointer receiver called on the (addressable) local may modify it
+			if sel, ok := unparen(s.Fun).(*ast.SelectorExpr); ok {
+				if bid, ok := unparen(sel.X).(*ast.Ident); ok && info.Uses[bid] == types.Object(v) {
+					if selInfo := info.Selections[sel]; selInfo != nil && selInfo.Kind() == types.MethodVal {
+						if sig, ok := selInfo.Obj().Type().(*types.Signature); ok && sig.Recv() != nil {
+							if _, isPtr := sig.Recv().Type().(*types.Pointer); isPtr {
+								spoiled = true
+							}
+						}
+					}
+				}
+			}
+		}
+		return true
+	})
+	if n != 1 || lit == nil || spoiled {
+		return nil
+	}
+	if _, isStruct := info.TypeOf(lit).Underlying().(*types.Struct); !isStruct {
+		return nil
+	}
+	for _, el := range lit.Elts {
+		kv, ok := el.(*ast.KeyValueExpr)
+		if !ok {
+			return nil
+		}
+		if kid, ok := kv.Key.(*ast.Ident); ok && kid.Name == field {
+			return kv.Value
+		}
+	}
+	return nil
 }
 
 // classifierEdge: the edge belongs to `switch h(args) { ... case K: ... }`; see the file comment. Returns the condition
